@@ -141,7 +141,10 @@ def run_case(role, steps):
             out.append(("draining-affects-protocol", f"after {a[0]}: subject {subj.trace[-1]['outcome']}/{subj.sess.state.name} twin {twin.trace[-1]['outcome']}/{twin.sess.state.name}"))
             return out, obs
         if v2:
-            # the twin (drain mode) found a state-machine violation: C08/C10's business, stop this case
+            # bytes that no successful send call queued are this property's subject; other model divergences are C08/C10's
+            for key, what in v2:
+                if key.startswith(("receive-queued-bytes", "rejected-call-queued-bytes", "unexpected-bytes", "bytes-appeared-between-calls")):
+                    out.append(("bytes-not-from-a-successful-send:" + key.split(":")[0], what))
             obs["twin-model-divergence"] = 1
             return out, obs
     subj.out_stream += subj.sess.data_to_send()
